@@ -25,6 +25,7 @@ FrobProd(F, cur, k, acc) ==
 
 InvF(F, a) ==
   IF F.d = 1 THEN <<InvP(F.p, a[1])>>
+  ELSE IF a = Zero(F) THEN Zero(F)
   ELSE LET c == FrobProd(F, Pow(F, a, F.p), 1, One(F))
        IN Mul(F, Pow(F, a, F.p - 2), Pow(F, c, F.p - 1))
 Div(F, a, b) == Mul(F, a, InvF(F, b))
